@@ -61,6 +61,7 @@ void abtv_idle_hint(void);
 
 /* allocation ledger / fault injection */
 void abtv_ledger_reset(void);
+long abtv_ledger_bytes(void);          /* bytes in live blocks */
 long abtv_ledger_live(void);           /* live blocks allocated through wraps */
 long abtv_ledger_errors(void);         /* frees of unknown / interior pointers etc. */
 long abtv_ledger_allocs(void);
